@@ -22,7 +22,7 @@ const (
 var (
 	SampleEvery = 200 * time.Millisecond
 	Window      = 3 * time.Second
-	Budget      = 120 * time.Second
+	Budget      = 60 * time.Second
 	GraceFirst  = 400 * time.Millisecond
 )
 
